@@ -17,6 +17,16 @@ CLAIMS = {
             "Detached) reaches Ok(()), that InvalidExitCode is decided before the diff, that the diffed stream is stderr exactly on "
             "output_stream==Some(Stderr), and the subprocess exit-status / timeout mapping tables.",
             "Not decided: that the OS reports signals as Signaled; behaviour of the subprocess crate.", "§4 C05"),
+    "C14": ("Decides that the effective-timeout `min` compares Durations first (derived Ord: first declared field), that the selected value is "
+            "stored into the test case before Runner::run and reaches limit_time on every path on the Some edge, the document-limit "
+            "defaults/zero handling, that the Timeout arm of execute_all always returns Err(Timeout) and never continues, and that the test "
+            "command maps Timeout outputs to failed (never validated) and the remainder to skipped.",
+            "Not decided: wall-clock accuracy, that limit_time kills promptly, that a command finishing inside all limits is never timed out.", "§4 C14"),
+    "C16": ("Decides per field of both config types that with_defaults_from merges with an operator whose priority side is the receiver "
+            "(or/or_else; defaults.chain(self).collect() for the environment map; extend for prepend/append), that with_overrides_from is its "
+            "mirror, the layer order (CLI > test case > document defaults > format) at every merge call site of lib+bin, and the two format "
+            "default tables.",
+            "Not decided: the observable run-time effect of each key.", "§4 C16"),
 }
 
 PENDING = "static rules for this property are designed (DESIGN.md §4) but not yet implemented in this revision"
